@@ -90,7 +90,10 @@ def verdict (evs : List Ev) : Option String :=
   | .ok _ => none
   | .error e => some e
 
-/-- implementation-side oracle: consecutive wake-ups that report something but dispatch nothing -/
+/-- first-draft spin oracle (third consecutive wake-up that reports something, none having dispatched anything);
+`Ivy.Props.C07progress.spin_false_positive` shows it can reject a legitimate trace (stale one-shot kick + stale kernel
+timer), `no_spin` proves it sound under the extra hypothesis `srcVerdict`. Kept for those theorems; the checks use
+`spin4Verdict` and the source-aware `Ivy.L1.Progress.idleVerdict` instead. -/
 def spinStep (n : Nat) (e : Ev) : Except String Nat :=
   match e with
   | .out (.cb _) => .ok 0
@@ -100,6 +103,21 @@ def spinStep (n : Nat) (e : Ev) : Except String Nat :=
 
 def spinVerdict (evs : List Ev) : Option String :=
   match runMon spinStep 0 evs with
+  | .ok _ => none
+  | .error e => some e
+
+/-- implementation-side oracle used by the checks: a FOURTH consecutive wake-up that reports something after three
+that dispatched nothing (a stale kick and a stale kernel timer legitimately account for two). Catches kernel-contract
+breaches caused by the library itself, e.g. a kick descriptor that reports HUP forever (D3). -/
+def spin4Step (n : Nat) (e : Ev) : Except String Nat :=
+  match e with
+  | .out (.cb _) => .ok 0
+  | .inp (.wret (.events l)) =>
+    if l.isEmpty then .ok 0 else if n ≥ 3 then .error "the loop spins: repeated wake-ups that report events but dispatch nothing" else .ok (n + 1)
+  | _ => .ok n
+
+def spin4Verdict (evs : List Ev) : Option String :=
+  match runMon spin4Step 0 evs with
   | .ok _ => none
   | .error e => some e
 
